@@ -246,11 +246,13 @@ class GaussianMixture:
                 assert abs(e['x'][j] - x) <= 1e-9 * max(1.0, abs(x)), (x, e['x'][j])
                 out.append(e['labels'][j])
             return A(out)
-        if kind not in self._memo:
+        # deterministic library: same (n, samples, random_state) -> same answers, also across estimator objects
+        key = ('gmm', self.n, kind, _key(self.random_state) if core.is_sym(self.random_state) else repr(self.random_state), _key(X))
+        if key not in MEMO:
             if OPTIONS['gmm'] is None:
                 raise ShimGap('GaussianMixture reached without a harness-specific stub')
-            self._memo[kind] = OPTIONS['gmm'](self.n, X, kind)
-        v = self._memo[kind]
+            MEMO[key] = OPTIONS['gmm'](self.n, X, kind)
+        v = MEMO[key]
         return v.copy() if hasattr(v, 'copy') else v
 
     def predict(self, X):
